@@ -110,6 +110,7 @@ FindView(k, h, r) ==
        ELSE [slot |-> "none", status |-> "Future"]
   ELSE IF h = k.C.h /\ r = k.C.r THEN [slot |-> "C", status |-> "Found"]
   ELSE IF h = k.C.h /\ r < k.C.r THEN [slot |-> "none", status |-> "BeforeCommitting"]
+  ELSE IF h = k.C.h /\ k.C.h > 0 THEN [slot |-> "none", status |-> "WrongCommit"]
   ELSE IF h < k.C.h THEN [slot |-> "none", status |-> "BeforeCommitting"]
   ELSE IF h > k.V.h THEN [slot |-> "none", status |-> "Future"]
   ELSE [slot |-> "none", status |-> "PANIC"]      \* "TODO: unhandled attempt to find view"
@@ -262,8 +263,8 @@ CheckNextRoundPrecommitViewShift(x) ==
   IN IF TotalAsCoded(n.vs, n.pc) < Min(avail) THEN x
      ELSE LET x1 == JumpVotingRound(x)
               mx == BlockPow(n.vs, n.pc, MostVoted(n.vs, n.pc))
-          IN IF mx >= Maj(avail) THEN Panic(x1, "TODO: handle a majority precommit for NextRound")
-             ELSE IF mx >= Min(avail) THEN CheckMissingPHs(x1, x1.k.V.pc) ELSE x1
+              x2 == IF mx >= Min(avail) THEN CheckMissingPHs(x1, x1.k.V.pc) ELSE x1
+          IN IF mx >= Maj(avail) THEN CheckVotingPrecommitViewShift(x2) ELSE x2
 
 \* [Kernel.checkPrevoteViewShift]
 CheckPrevoteViewShift(x) ==
@@ -300,7 +301,7 @@ AddVote(x, kind, h, r, upd, prevVers) ==
   LET k == x.k
       fv == FindView(k, h, r)
   IN IF fv.status = "PANIC" THEN Panic([x EXCEPT !.res = "none"], "TODO: unhandled attempt to find view")
-     ELSE IF fv.status \in {"BeforeCommitting", "Orphaned"} THEN [x EXCEPT !.res = "OutOfDate"]
+     ELSE IF fv.status \in {"BeforeCommitting", "Orphaned", "WrongCommit"} THEN [x EXCEPT !.res = "OutOfDate"]
      ELSE IF fv.status = "Future" THEN Panic(x, "TODO: handle unexpected view status")
      ELSE
       LET view == GetView(k, fv.slot)
@@ -387,12 +388,12 @@ PHCheck(k, m) ==
   ELSE IF h = k.C.h THEN
         IF m.r < k.C.r THEN [status |-> "RoundTooOld"]
         ELSE IF m.r = k.C.r THEN [status |-> "Check", slot |-> "C"]
-        ELSE [status |-> "PANIC"]
+        ELSE [status |-> "RoundTooOld"]
   ELSE IF h = k.V.h THEN
         IF m.r < k.V.r THEN [status |-> "RoundTooOld"]
         ELSE IF m.r = k.V.r THEN [status |-> "Check", slot |-> "V"]
         ELSE IF m.r = k.V.r + 1 THEN [status |-> "Check", slot |-> "N"]
-        ELSE [status |-> "PANIC"]
+        ELSE [status |-> "RoundTooFarInFuture"]
   ELSE IF h = k.V.h + 1 THEN [status |-> "NextHeight"]
   ELSE [status |-> "RoundTooFarInFuture"]
 
@@ -437,16 +438,18 @@ AddPH(x, m) ==
               \* backfill the header's PrevCommitProof into the committing view
               LET pcp == HDR[m.hdr].pcp
                   c == x1.k.C
-                  unknown == \E t \in DOMAIN pcp : t \notin DOMAIN c.pc
                   short == \E t \in DOMAIN pcp : \E e \in pcp[t] : e.pos = -1
                   P(e) == IF e.pos = -3 THEN 1 ELSE e.pos
-                  newpc == [t \in DOMAIN c.pc |->
-                              c.pc[t] \cup (IF t \in DOMAIN pcp /\ HDR[m.hdr].pcpPkh = c.vs
-                                            THEN {P(e) : e \in {f \in pcp[t] : f.cls = "ok" /\ P(f) >= 1 /\ P(f) <= NPos(c.vs)}}
-                                            ELSE {})]
+                  \* the header's signatures are for (h-1, pcpR): they verify in the committing view only if
+                  \* it is that round and that key set; unseen targets get a fresh proof, kept if it gained a signature
+                  applies == HDR[m.hdr].pcpPkh = c.vs /\ HDR[m.hdr].pcpR = c.r
+                  add(t) == IF t \in DOMAIN pcp /\ applies
+                              THEN {P(e) : e \in {f \in pcp[t] : f.cls = "ok" /\ P(f) >= 1 /\ P(f) <= NPos(c.vs)}}
+                              ELSE {}
+                  newT == {t \in DOMAIN pcp : t \notin DOMAIN c.pc /\ add(t) # {}}
+                  newpc == [t \in DOMAIN c.pc \cup newT |-> (IF t \in DOMAIN c.pc THEN c.pc[t] ELSE {}) \cup add(t)]
                   grew == newpc # c.pc
-                  x2 == IF unknown THEN Panic(x1, "TODO: backfill unknown block precommit")
-                        ELSE IF short THEN Panic(x1, "index out of range in MergeSparse (key id shorter than 2 bytes)")
+                  x2 == IF short THEN Panic(x1, "index out of range in MergeSparse (key id shorter than 2 bytes)")
                         ELSE IF ~grew THEN x1
                         ELSE LET rc == RoundOf(x1.st, HDR[m.hdr].h - 1, HDR[m.hdr].pcpR)
                                  x1b == [x1 EXCEPT !.k.C.pc = newpc]
@@ -466,13 +469,13 @@ HandlePH(x, m, fuel) ==
   IN IF chk.status = "PANIC" THEN Panic(x, "TODO: handle proposed block with round beyond committing/voting round")
      ELSE IF chk.status = "RoundTooOld" THEN [x EXCEPT !.res = "RoundTooOld"]
      ELSE IF chk.status = "RoundTooFarInFuture" THEN [x EXCEPT !.res = "RoundTooFarInFuture"]
+     ELSE IF chk.status = "NextHeight" /\ fuel = 0 THEN [x EXCEPT !.res = "RoundTooFarInFuture"]   \* backfilled once already
      ELSE IF chk.status = "NextHeight" THEN
         \* [backfillCommitForNextHeightPE] then goto RESTART
         LET pmsg == [h |-> H.h - 1, r |-> H.pcpR, pkh |-> H.pcpPkh, proofs |-> H.pcp]
             x1 == HandleVote(x, "precommit", pmsg)
         IN IF ~OKx(x1) THEN x1
-           ELSE IF fuel = 0 THEN Panic(x1, "HANG: HandleProposedHeader never returns (goto RESTART after a backfill that did not commit)")
-           ELSE HandlePH([x1 EXCEPT !.res = NULL], m, IF x1.k.V.h = x.k.V.h THEN 0 ELSE fuel)
+           ELSE HandlePH([x1 EXCEPT !.res = NULL], m, 0)
      ELSE
       LET view == GetView(x.k, chk.slot)
           have == PHKey(m) \in view.phs
@@ -534,7 +537,7 @@ HandleReplay(x, m) ==
               mine == IF m.hdr \in DOMAIN tmp THEN tmp[m.hdr] ELSE {}
               powHdr == SumPow(hv, mine)                            \* powers by index over the header's set
           IN IF ~OKx(x2) THEN x2
-             ELSE IF m.hdr \notin DOMAIN tmp THEN Panic(x2, "nil pointer dereference (no proof entry for the replayed header hash)")
+             ELSE IF m.hdr \notin DOMAIN tmp THEN [x2 EXCEPT !.res = "Validation"]
              ELSE IF powHdr < Maj(TotalPow(v.vs)) THEN [x2 EXCEPT !.res = "Validation"]
              ELSE
               LET newpc == [t \in DOMAIN v.pc \cup DOMAIN tmp |-> IF t \in DOMAIN tmp THEN tmp[t] ELSE v.pc[t]]
@@ -553,7 +556,7 @@ SMEnter(x, h, r, pub) ==
   IN IF fv.status = "Found"
        THEN LET view == GetView(k0, fv.slot)
             IN [x EXCEPT !.k = [k0 EXCEPT !.smm.lastSent = view.ver], !.res = <<"VRV", view.h, view.r, view.ver>>]
-     ELSE IF fv.status = "BeforeCommitting"
+     ELSE IF fv.status \in {"BeforeCommitting", "WrongCommit"}
        THEN IF h \in DOMAIN x.st.hdr THEN [x EXCEPT !.k = k0, !.res = <<"CH", x.st.hdr[h].hdr>>]
             ELSE Panic([x EXCEPT !.k = k0], "failed to load block from block store for state machine")
      ELSE Panic([x EXCEPT !.k = k0], "TODO: handle view not found when responding to state machine round update")
@@ -566,11 +569,9 @@ SMVote(x, kind, target) ==
      ELSE IF fv.status # "Found" \/ fv.slot \notin {"V", "C"} THEN x
      ELSE LET view == GetView(k, fv.slot)
               cur == ProofsOf(view, kind)
-              \* the proof is built with the VOTING view's keys; AddSignature fails if the key is not in it
-              pos == PosOfKey(k.V.vs, k.smm.pub)
+              \* AddSignature fails if the key is not in the view's validator set
+              pos == PosOfKey(view.vs, k.smm.pub)
           IN IF pos = 0 THEN x
-             ELSE IF fv.slot = "C" /\ target \notin DOMAIN cur /\ k.V.vs # view.vs /\ DOMAIN cur # {}
-                  THEN Panic(x, "public key hash mismatch in signature proofs")  \* proof built with the voting set's keys
              ELSE AddVote(x, kind, view.h, view.r,
                           (target :> ((IF target \in DOMAIN cur THEN cur[target] ELSE {}) \cup {pos})),
                           VersOf(view, kind))
